@@ -52,8 +52,14 @@ def check_seq(ck, svc, cfg, steps, oks, events, note=None):
                 kind = "accepted-but-not-configured" if ok else "rejected-although-configured"
                 ck.disagree("%s/login/%s" % (svc, kind), "%s: attempt %r/%r after %s: spec %s, real %s" % (
                     desc, s["user"], s["password"], [(x["a"], x["user"], x["password"]) for x in steps[:k]], s["ok"], ok), rp)
+            elif not ok and k > 0 and steps[k - 1]["a"] == "attempt" and steps[k - 1]["ok"] and oks[k - 1] and steps[k - 1]["user"] != "":
+                # "refused UNTIL a login has succeeded": the attempt right before this probe, on the same connection, was a
+                # successful login of a named user (the property's anchor: an empty bound user means anonymous) - the gate must be open
+                ck.disagree("%s/gate/refused-after-login" % svc, "%s: gated operation refused right after the successful login %r/%r (sequence %s)" % (
+                    desc, steps[k - 1]["user"], steps[k - 1]["password"], [(x["a"], x["user"], x["password"]) for x in steps[:k]]), rp)
             elif not ok:
-                # the property only demands refusal BEFORE a login; being refused later is not against it
+                # otherwise the property only demands refusal BEFORE a login; being refused later (after an anonymous bind, after
+                # further attempts) is not against it
                 ck.notes.append("MODEL-DRIFT %s: gated operation refused although the specification has the connection logged in: %s"
                                 % (desc, [(x["a"], x["user"], x["password"]) for x in steps[:k]]))
                 continue
@@ -91,6 +97,9 @@ def run_ssh(ck, lab, cfgs):
 
 # ------------------------------------------------------------------ ldap / ftp through the script executor
 
+LDAP_GATED = [P.ldap_add, P.ldap_modify, P.ldap_delete, P.ldap_moddn, P.ldap_compare]
+
+
 def ldap_steps(seq, base_ip):
     steps, meta = [], []
     conn, mid = 0, 0
@@ -115,7 +124,8 @@ def ldap_steps(seq, base_ip):
                 dn = "cn=%s,dc=example,dc=com" % dn     # evaluated as its first RDN value
             msg = P.ldap_bind(mid % 120 + 1, dn, s["password"])
         else:
-            msg = P.ldap_add(mid % 120 + 1, "cn=probe,dc=example,dc=com")
+            # the five gated operations in turn
+            msg = LDAP_GATED[k % len(LDAP_GATED)](mid % 120 + 1, "cn=probe,dc=example,dc=com")
         steps.append({"op": "send", "c": "c%d" % conn, "hex": msg.hex()})
         meta.append(None)
         steps.append({"op": "recv", "c": "c%d" % conn, "until": "quiet", "quiet_ms": 30, "timeout_ms": 3000})
@@ -267,7 +277,7 @@ def run(tier, lab):
                            "(exhaustive for <=1 credential x 2 steps, -simulate for <=3 x 5); sampled per credential set by seed"})
     ck.assumptions += ["ldap anonymous bind (\"\",\"\") is answered with success but is not a login (as the code documents)",
                        "ldap names are also presented as cn=<user>,dc=... and must be evaluated to <user>",
-                       "ftp's credential set is the built-in {anonymous:anonymous}; gated probe = PWD (ftp), add (ldap)",
+                       "ftp's credential set is the built-in {anonymous:anonymous}; gated probe = PWD (ftp); add, modify, delete, modifyDN, compare in turn (ldap); a gated operation refused right after the successful login of a named user is a violation, refusals later on are drift",
                        "ssh: consecutive attempts for one user share a connection (keyboard retry), another user = new connection"]
     return ck.finish()
 
